@@ -1,6 +1,8 @@
-//! C11 correspondence: generated layer trees (depth, permission modes, every symlink kind, top-level symlink) built on
+//! C11 correspondence: generated layer trees (depth, permission modes, every symlink kind, top-level symlink, hard links
+//! between names inside the layer and files outside it / inside it / the other way round) built on
 //! disk beside canary trees and sibling layers; the real `uncached_layer`, `cached_layer` + DeleteLayer and trait
-//! `handle_layer` + Recreate; whole-root snapshot (kind, mode, content, link target) before and after.
+//! `handle_layer` + Recreate; whole-root snapshot (kind, mode, content, link target, link count of a regular file when
+//! it is not 1) before and after.
 //! Cases tagged `user` run the operation in a child process under `setpriv --reuid=65534 --regid=65534 --clear-groups`
 //! (the tree is built, chown-ed and snapshotted by the root parent).
 #![allow(deprecated)]
@@ -18,7 +20,7 @@ use serde::{Deserialize, Serialize};
 use std::cell::Cell;
 use std::ffi::OsString;
 use std::os::unix::ffi::{OsStrExt, OsStringExt};
-use std::os::unix::fs::PermissionsExt;
+use std::os::unix::fs::{MetadataExt, PermissionsExt};
 use std::path::{Path, PathBuf};
 
 const NOBODY: u32 = 65534;
@@ -78,8 +80,9 @@ fn do_op(api: &str, layers: &Path, name: &str) -> String {
 }
 
 // ---------------------------------------------------------------------------------------------- trees
+/// `H(target)`: a hard link — another name of the regular file entered (earlier in the list) at path `target`, relative to the root
 #[derive(Clone)]
-enum Kind { D(u32), F(u32, Vec<u8>), L(Vec<u8>) }
+enum Kind { D(u32), F(u32, Vec<u8>), L(Vec<u8>), H(Vec<Vec<u8>>) }
 #[derive(Clone)]
 struct Entry { path: Vec<Vec<u8>>, kind: Kind }
 
@@ -89,6 +92,7 @@ fn enc_entry(e: &Entry) -> String {
         Kind::D(m) => format!("D:{}:{:o}", enc_path(&e.path), m),
         Kind::F(m, c) => format!("F:{}:{:o}:{}", enc_path(&e.path), m, if c.is_empty() { "-".into() } else { hex(c) }),
         Kind::L(t) => format!("L:{}:{}", enc_path(&e.path), hex(t)),
+        Kind::H(t) => format!("H:{}:{}", enc_path(&e.path), enc_path(t)),
     }
 }
 fn dec_path(s: &str) -> Option<Vec<Vec<u8>>> { if s.is_empty() { return None; } s.split('/').map(|c| unhex(c).filter(|b| !b.is_empty() && !b.contains(&b'/') && !b.contains(&0) && b != b"." && b != b"..")).collect() }
@@ -98,6 +102,7 @@ fn dec_entry(s: &str) -> Option<Entry> {
         ["D", path, m] => Some(Entry { path: dec_path(path)?, kind: Kind::D(u32::from_str_radix(m, 8).ok()?) }),
         ["F", path, m, c] => Some(Entry { path: dec_path(path)?, kind: Kind::F(u32::from_str_radix(m, 8).ok()?, if *c == "-" { vec![] } else { unhex(c)? }) }),
         ["L", path, t] => Some(Entry { path: dec_path(path)?, kind: Kind::L(unhex(t).filter(|t| !t.is_empty() && !t.contains(&0))?) }),
+        ["H", path, t] => Some(Entry { path: dec_path(path)?, kind: Kind::H(dec_path(t)?) }),
         _ => None,
     }
 }
@@ -139,6 +144,11 @@ fn build(root: &Path, entries: &[Entry], target_toml: &[Vec<u8>]) -> std::io::Re
                 let target: Vec<u8> = if t.first() == Some(&b'/') { let mut v = root.as_os_str().as_bytes().to_vec(); if t.len() > 1 { v.extend_from_slice(t); } v } else { t.clone() };
                 std::os::unix::fs::symlink(OsString::from_vec(target), &p)?;
             }
+            Kind::H(t) => {
+                // only regular files entered as `F` are linked to (the model's reading of the entry)
+                if !entries.iter().any(|x| &x.path == t && matches!(x.kind, Kind::F(..))) { return Err(std::io::Error::from(std::io::ErrorKind::InvalidInput)); }
+                std::fs::hard_link(os_path(root, t), &p)?;
+            }
         }
     }
     Ok(())
@@ -177,7 +187,8 @@ fn snap(root: &Path, target_toml: &[Vec<u8>]) -> String {
             } else {
                 let body = std::fs::read(&p).unwrap_or_else(|_| b"?".to_vec());
                 let body = if rel.as_slice() == target_toml { toml_token(&body) } else { body };
-                out.push((rel.clone(), format!("F {} {:o} {}", enc_path(rel), mode, if body.is_empty() { "-".into() } else { hex(&body) })));
+                let nlink = if md.nlink() == 1 { String::new() } else { format!(" n{}", md.nlink()) };
+                out.push((rel.clone(), format!("F {} {:o} {}{}", enc_path(rel), mode, if body.is_empty() { "-".into() } else { hex(&body) }, nlink)));
             }
             rel.pop();
         }
@@ -245,7 +256,7 @@ fn run_case(f: &[String]) -> String {
 }
 
 // ---------------------------------------------------------------------------------------------- generation
-struct Gen<'a> { r: &'a mut Rng, entries: Vec<Entry>, name: Vec<u8>, maxdepth: usize, budget: usize, links: Vec<&'static str>, oddmode: bool }
+struct Gen<'a> { r: &'a mut Rng, entries: Vec<Entry>, name: Vec<u8>, maxdepth: usize, budget: usize, links: Vec<&'static str>, oddmode: bool, hards: Vec<&'static str>, fresh: usize }
 
 const DIR_MODES: [u32; 9] = [0o755, 0o755, 0o700, 0o500, 0o300, 0o000, 0o555, 0o777, 0o755];
 const FILE_MODES: [u32; 6] = [0o644, 0o644, 0o600, 0o444, 0o000, 0o755];
@@ -255,6 +266,35 @@ impl Gen<'_> {
     fn d(&mut self, path: Vec<Vec<u8>>, mode: u32) { self.entries.push(Entry { path, kind: Kind::D(mode) }); }
     fn f(&mut self, path: Vec<Vec<u8>>, mode: u32, c: &[u8]) { self.entries.push(Entry { path, kind: Kind::F(mode, c.to_vec()) }); }
     fn l(&mut self, path: Vec<Vec<u8>>, t: Vec<u8>) { self.entries.push(Entry { path, kind: Kind::L(t) }); }
+    fn h(&mut self, path: Vec<Vec<u8>>, target: Vec<Vec<u8>>) { self.entries.push(Entry { path, kind: Kind::H(target) }); }
+    /// one hard link involving the new name `p` inside the layer: to a file outside (canary tree, root, sibling layer; existing or
+    /// freshly made with a random mode), to a file inside the layer, or an outside name for a new file at `p`
+    fn hard_link(&mut self, p: Vec<Vec<u8>>) {
+        let lp = vec![b"layers".to_vec(), self.name.clone()];
+        let own = own_names(&self.name);
+        let is_own = |q: &Vec<Vec<u8>>| q.starts_with(&lp) || (q.len() == 2 && q[0] == b"layers" && own.contains(&q[1]));
+        let files = |g: &Self, inside: bool| -> Vec<Vec<Vec<u8>>> { g.entries.iter().filter(|e| matches!(e.kind, Kind::F(..)) && if inside { e.path.starts_with(&lp) } else { !is_own(&e.path) }).map(|e| e.path.clone()).collect() };
+        let readonly = |g: &Self, q: &Vec<Vec<u8>>| g.entries.iter().any(|e| &e.path == q && matches!(e.kind, Kind::F(m, _) if m & 0o222 == 0));
+        let c = |xs: &[&[u8]]| xs.iter().map(|x| x.to_vec()).collect::<Vec<_>>();
+        match self.r.below(10) {
+            // an existing outside file: beside the layers directory (2 in 5), in a sibling layer (2 in 5), a read-only one (1 in 5)
+            0..=4 => { let all = files(self, false);
+                let want = self.r.below(5);
+                let mut cands: Vec<Vec<Vec<u8>>> = all.iter().filter(|q| match want { 0 | 1 => q[0] != b"layers", 2 | 3 => q[0] == b"layers", _ => readonly(self, q) }).cloned().collect();
+                if cands.is_empty() { cands = all; }
+                let t = self.r.pick(&cands).clone();
+                if readonly(self, &t) { self.hards.push("out-readonly"); }
+                self.hards.push(if t[0] == b"layers" { "out-sibling" } else { "out" }); self.h(p, t); }
+            5 | 6 => { self.fresh += 1; let m = *self.r.pick(&FILE_MODES);
+                let t = if self.r.chance(1, 3) { c(&[b"layers", b"other", format!("s{}", self.fresh).as_bytes()]) } else { c(&[b"canary", format!("x{}", self.fresh).as_bytes()]) };
+                self.f(t.clone(), m, b"shared"); self.hards.push("out-fresh"); self.h(p, t); }
+            7 | 8 => { let cands = files(self, true);
+                if cands.is_empty() { let m = *self.r.pick(&FILE_MODES); self.f(p, m, b"solo"); } else { let t = self.r.pick(&cands).clone(); self.hards.push("in-in"); self.h(p, t); } }
+            _ => { self.fresh += 1; let m = *self.r.pick(&FILE_MODES); self.f(p.clone(), m, b"inner");
+                let o = if self.r.chance(1, 3) { c(&[b"layers", b"other", format!("o{}", self.fresh).as_bytes()]) } else { c(&[b"canary", b"d1", format!("o{}", self.fresh).as_bytes()]) };
+                self.hards.push("from-out"); self.h(o, p); }
+        }
+    }
     fn ups(n: usize) -> Vec<u8> { "../".repeat(n).into_bytes() }
     /// a symlink target for a link living in the directory `depth` levels below the layer directory
     fn link_target(&mut self, depth: usize, siblings: &[Vec<u8>]) -> (Vec<u8>, &'static str) {
@@ -301,10 +341,12 @@ impl Gen<'_> {
                 if m & 0o700 != 0o700 { self.oddmode = true; }
                 self.d(p.clone(), m);
                 self.fill(&p, depth + 1);
-            } else if roll < 62 {
+            } else if roll < 54 {
                 let m = *self.r.pick(&FILE_MODES);
                 let c: Vec<u8> = (0..self.r.below(4)).map(|_| b'a' + self.r.below(26) as u8).collect();
                 self.f(p, m, &c);
+            } else if roll < 62 {
+                self.hard_link(p);
             } else if roll < 70 {
                 // a two-link cycle, or a link to itself
                 if self.r.chance(1, 3) { self.l(p, nm.clone()); self.links.push("cycle"); }
@@ -380,13 +422,15 @@ fn surroundings(g: &mut Gen, layers_mode: u32) {
 struct Shape { top: &'static str, toml: &'static str, sboms: [bool; 3], layers_mode: u32 }
 
 fn make_case(api: &str, uid: &str, name: &[u8], kindtag: &str, shape: &Shape, r: &mut Rng, maxdepth: usize, fixed: Option<&dyn Fn(&mut Gen, &[Vec<u8>])>) -> Case {
-    let mut g = Gen { r, entries: vec![], name: name.to_vec(), maxdepth, budget: 28, links: vec![], oddmode: false };
+    let mut g = Gen { r, entries: vec![], name: name.to_vec(), maxdepth, budget: 28, links: vec![], oddmode: false, hards: vec![], fresh: 0 };
     surroundings(&mut g, shape.layers_mode);
     let lp = vec![b"layers".to_vec(), name.to_vec()];
     let mut present = true;
     match shape.top {
         "dir" => { let m = if g.r.chance(1, 5) { *g.r.pick(&DIR_MODES) } else { 0o755 }; if m & 0o700 != 0o700 { g.oddmode = true; } g.d(lp.clone(), m); match fixed { Some(f) => f(&mut g, &lp), None => g.fill(&lp, 0) } }
         "absent" => { present = false; }
+        // `<layers>/<name>` itself a regular file that has a second name outside the layer (mode 0444)
+        "top-hard-file" => { g.h(lp.clone(), vec![b"canary".to_vec(), b"d0".to_vec(), b"k".to_vec()]); g.hards.push("top"); }
         t => { let target: &[u8] = match t {
                 "top-out-dir-rel" => b"../canary/d1", "top-out-dir-abs" => b"/canary/d1", "top-out-ro-dir" => b"../canary/d0", "top-out-noexec-dir" => b"../canary/dz",
                 "top-out-file" => b"../canary/f1", "top-sibling" => b"other", "top-dangling" => b"nope", "top-loop" => b"", _ => b"../canary/d1" };
@@ -397,10 +441,12 @@ fn make_case(api: &str, uid: &str, name: &[u8], kindtag: &str, shape: &Shape, r:
     for (i, suf) in ["cdx.json", "spdx.json", "syft.json"].iter().enumerate() { if shape.sboms[i] { let mut n = name.to_vec(); n.extend_from_slice(format!(".sbom.{suf}").as_bytes()); g.f(vec![b"layers".to_vec(), n], 0o644, b"{\"old\":1}"); } }
     let depth = g.entries.iter().filter(|e| e.path.starts_with(&lp)).map(|e| e.path.len() - 2).max().unwrap_or(0);
     let mut lk: Vec<&str> = g.links.clone(); lk.sort(); lk.dedup();
-    let nontrivial = present && shape.toml != "B" && (!g.links.is_empty() || g.oddmode);
+    let mut hk: Vec<&str> = g.hards.clone(); hk.sort(); hk.dedup();
+    let nontrivial = present && shape.toml != "B" && (!g.links.is_empty() || g.oddmode || !g.hards.is_empty());
     let mut tags = vec![("kind".to_string(), format!("{kindtag}-{api}-{uid}")), ("top".into(), shape.top.into()), ("toml".into(), shape.toml.into()), ("depth".into(), depth.to_string()),
-        ("links".into(), g.links.len().min(6).to_string()), ("oddmode".into(), u8::from(g.oddmode).to_string()), ("layersmode".into(), format!("{:o}", shape.layers_mode))];
+        ("links".into(), g.links.len().min(6).to_string()), ("hard".into(), g.hards.len().min(6).to_string()), ("oddmode".into(), u8::from(g.oddmode).to_string()), ("layersmode".into(), format!("{:o}", shape.layers_mode))];
     for k in lk { tags.push((format!("link-{k}"), "1".into())); }
+    for k in hk { tags.push((format!("hard-{k}"), "1".into())); }
     Case { fields: vec![api.into(), uid.into(), hex(name), join(";", &g.entries.iter().map(enc_entry).collect::<Vec<_>>())], tags, nontrivial }
 }
 
@@ -418,6 +464,49 @@ fn generate(tier: &str, seed: u64, emit: &mut dyn FnMut(Case)) {
             g.d(c(&[b"sub"], l), 0o755); g.l(c(&[b"sub", b"o7"], l), b"../../../canary/d0".to_vec()); g.l(c(&[b"sub", b"o8"], l), b"../../other".to_vec()); })),
         ("cycles", Box::new(move |g, l| { g.links.push("cycle"); g.l(c(&[b"p"], l), b"q".to_vec()); g.l(c(&[b"q"], l), b"p".to_vec()); g.l(c(&[b"s"], l), b"s".to_vec()); g.d(c(&[b"sub"], l), 0o700); g.l(c(&[b"sub", b"up"], l), b"..".to_vec()); g.l(c(&[b"sub", b"me"], l), b".".to_vec()); g.l(c(&[b"dang"], l), b"nope".to_vec()); g.l(c(&[b"dang2"], l), b"/no/such".to_vec()); })),
     ];
+    // 0. directed hard links, first (own random stream: the cases below keep theirs): for every API, user and file mode, a layer whose
+    // names share inodes with a file in the canary tree (twice: also from inside a read-only directory), in a sibling layer, at the
+    // root, with files in a read-only / a non-searchable canary directory, with each other, and outside names of files that live in
+    // the layer; then the layer's SBOM file being such a name
+    let mut hidx = 0u64;
+    for api in ["U", "C", "T"] { for uid in ["root", "user"] {
+        for mode in [0o444u32, 0o400, 0o000, 0o644, 0o755] {
+            hidx += 1; let mut r = Rng::for_case(seed ^ 0xC11B, hidx);
+            let shape = Shape { top: "dir", toml: "T", sboms: [true, false, true], layers_mode: 0o755 };
+            let f = move |g: &mut Gen, l: &[Vec<u8>]| {
+                g.oddmode = true;
+                g.f(c(&[b"canary", b"hl"], &[]), mode, b"shared-1");
+                g.f(c(&[b"layers", b"other", b"shared"], &[]), mode, b"shared-2");
+                g.f(c(&[b"hroot"], &[]), mode, b"");
+                g.h(c(&[b"h1"], l), c(&[b"canary", b"hl"], &[]));
+                g.d(c(&[b"ro"], l), 0o500); g.h(c(&[b"ro", b"h1b"], l), c(&[b"canary", b"hl"], &[]));
+                g.h(c(&[b"h2"], l), c(&[b"layers", b"other", b"shared"], &[]));
+                g.d(c(&[b"sub"], l), 0o755); g.h(c(&[b"sub", b"h3"], l), c(&[b"hroot"], &[]));
+                g.h(c(&[b"k"], l), c(&[b"canary", b"d0", b"k"], &[]));
+                g.h(c(&[b"z"], l), c(&[b"canary", b"dz", b"z"], &[]));
+                g.f(c(&[b"a"], l), mode, b"aa"); g.h(c(&[b"sub", b"a2"], l), c(&[b"a"], l));
+                g.f(c(&[b"inner"], l), mode, b"inner"); g.h(c(&[b"canary", b"from-in"], &[]), c(&[b"inner"], l));
+                g.f(c(&[b"ro", b"inner2"], l), mode, b"i2"); g.h(c(&[b"layers", b"other", b"from-in2"], &[]), c(&[b"ro", b"inner2"], l));
+                for k in ["out", "out", "out-sibling", "out", "out", "out", "in-in", "from-out", "from-out"] { g.hards.push(k); }
+            };
+            let mut cs = make_case(api, uid, b"lyr", "directed-hard", &shape, &mut r, 1, Some(&f)); cs.tags.push(("content".into(), format!("hard-{mode:o}"))); emit(cs);
+        }
+        // the layer's own SBOM file is a second name of an outside read-only file; one inside name of the same inode as well
+        hidx += 1; let mut r = Rng::for_case(seed ^ 0xC11B, hidx);
+        let shape = Shape { top: "dir", toml: "T", sboms: [true, false, true], layers_mode: 0o755 };
+        let f = move |g: &mut Gen, l: &[Vec<u8>]| {
+            g.h(c(&[b"layers", b"lyr.sbom.spdx.json"], &[]), c(&[b"canary", b"d0", b"k"], &[]));
+            g.h(c(&[b"k"], l), c(&[b"canary", b"d0", b"k"], &[]));
+            g.hards.push("sbom"); g.hards.push("out");
+        };
+        let mut cs = make_case(api, uid, b"lyr", "directed-hard", &shape, &mut r, 1, Some(&f)); cs.tags.push(("content".into(), "hard-sbom".into())); emit(cs);
+        // only on request (C11_TOP_HARDLINK=1): `<layers>/<name>` itself a regular file with a second name outside the layer
+        if std::env::var_os("C11_TOP_HARDLINK").is_some() {
+            hidx += 1; let mut r = Rng::for_case(seed ^ 0xC11B, hidx);
+            let shape = Shape { top: "top-hard-file", toml: "T", sboms: [false, false, false], layers_mode: 0o755 };
+            emit(make_case(api, uid, b"lyr", "directed-hard", &shape, &mut r, 1, None));
+        }
+    } }
     let mut idx = 0u64;
     for api in ["U", "C", "T"] { for uid in ["root", "user"] {
         for top in tops { for toml in ["T", "~", "E", "G", "B"] {
@@ -438,7 +527,7 @@ fn generate(tier: &str, seed: u64, emit: &mut dyn FnMut(Case)) {
     } }
     // 2. sampled trees
     let total: u64 = if tier == "thorough" { 40_000 } else { 2_000 };
-    let samples = total.saturating_sub(idx);
+    let samples = total.saturating_sub(idx + hidx);
     for i in 0..samples {
         let mut r = Rng::for_case(seed, i);
         let api = *r.pick(&["U", "C", "T"]);
